@@ -110,7 +110,7 @@ m = {
  "version": 1,
  "setup_cmd": "bin/setup",
  "hooks": {"guard": "verif",
-   "enable": "checks copy /repo's non-test sources into a scratch module, redirect the imports of sync, sync/atomic, math/rand/v2, os (and time + goroutine/channel syntax in the storage files) to shim packages, add in-package harness files tagged //go:build verif and build with -tags verif; nothing is committed to /repo",
+   "enable": "checks copy /repo's non-test sources into a scratch module, redirect the imports of sync, sync/atomic, math/rand/v2, os, path/filepath, io/ioutil (and time + goroutine/channel syntax in the storage files) to shim packages, append to every source file of the copy a generated function that re-initialises its package-level variables (called by the harness before every execution), add in-package harness files tagged //go:build verif and build with -tags verif; nothing is committed to /repo",
    "baseline_off_cmd": "cd /repo && GOFLAGS=-mod=mod GOPROXY=off go test -vet=off -count=1 -timeout 25m ./...",
    "source_commits": [], "add_only": True},
  "engines": engines,
